@@ -1,13 +1,508 @@
-"""CLI part shared by C01/C02 (stub, filled below)"""
+"""CLI part shared by C01 (evo_ape) and C02 (evo_rpe): files in a temp dir, `run(parser().parse_args(argv))`
+in-process with `--save_results`, the driver's plan interpreted with evo's core API on fresh copies
+(bit-identical comparison), and an oracle pipeline written from the documented option semantics whose final
+pose pairs are evaluated with the textbook definition in exact arithmetic."""
+import copy
+import io
+import os
+import shutil
+import tempfile
+
+import numpy as np
+
+import core
+from core import Fraction, frac, rat
+from props import metrics_common as mc
+
+LEN_FACTOR = {"mm": 1e3, "cm": 1e2, "m": 1.0, "km": 1e-3}
+
+
+# ------------------------------------------------------------------------------------------------ generator
+def gen_traj_pair(r, n, fmt, base, off):
+    """reference and estimate as rows7 (+stamps); estimate = similarity-transformed noisy copy on a sub-sampled,
+    jittered time grid; `off` is the time offset the estimate clock lags behind"""
+    from props.C02 import walk
+    ref12 = walk(r, n, r.choice([0.3, 2.0]), 0.4, stationary=r.choice([0.0, 0.0, 0.2]))
+    s = r.choice([1.0, 1.0, 0.5, 2.5])
+    T = mc.rigid_T(r, exact=False)
+    est12 = []
+    for p in ref12:
+        m = mc.pose12_to_np(p)
+        m[:3, 3] = m[:3, 3] * s + np.array([r.gauss(0, 0.02) for _ in range(3)])
+        dq = mc.quat_to_mat(mc.axis_angle_quat(mc.rand_unit(r, 3), r.uniform(0, 0.05)))
+        m[:3, :3] = m[:3, :3] @ np.array(dq)
+        est12.append(mc.np_to_pose12(T @ m))
+    dt = 0.1
+    if fmt == "euroc":
+        ns0 = int(base * 1e9)
+        ref_ns = [ns0 + k * 100000000 for k in range(n)]
+        ref_stamps = [t / 1e9 for t in ref_ns]
+    else:
+        ref_ns = None
+        ref_stamps = [base + k * dt for k in range(n)]
+    keep = [k for k in range(n) if r.random() < 0.85] or [0]
+    if fmt == "kitti":
+        keep = list(range(n))
+    est_stamps = [ref_stamps[k] + r.uniform(-0.004, 0.004) - off for k in keep]
+    est12 = [est12[k] for k in keep]
+    if fmt != "kitti" and r.random() < 0.3:
+        # extra estimate poses outside the reference range
+        extra = r.randint(1, 3)
+        last = est_stamps[-1]
+        for e in range(extra):
+            est_stamps.append(last + (e + 1) * dt)
+            est12.append(est12[-1])
+    return {"ref12": ref12, "est12": est12, "ref_stamps": ref_stamps, "est_stamps": est_stamps, "ref_ns": ref_ns}
+
+
+def gen_opts(r, which, fmt, data):
+    n = len(data["ref12"])
+    o = {"pose_relation": r.choice(mc.RELS[:6] if which == "ape" else mc.RELS)}
+    k = r.random()
+    if k < 0.25:
+        o["align"] = True
+    elif k < 0.4:
+        o["align_origin"] = True
+    if r.random() < 0.35:
+        o["correct_scale"] = True
+    if (o.get("align") or o.get("correct_scale")) and r.random() < 0.4:
+        o["n_to_align"] = r.choice([3, max(3, n // 2)])
+    if r.random() < 0.25:
+        o["downsample"] = r.choice([0, max(2, n // 2), max(3, n - 2), 1000])
+    if r.random() < 0.2:
+        o["motion_filter"] = [r.choice([0.0, 0.2, 1.0]), r.choice([0.0, 5.0, 20.0])]
+    if r.random() < 0.3:
+        o["project_to_plane"] = r.choice(["xy", "xz", "yz"])
+    if r.random() < 0.3:
+        rel = o["pose_relation"]
+        if rel in ("trans_part", "point_distance"):
+            o["change_unit"] = r.choice(["mm", "cm", "km", "m", "deg"])
+        elif rel in ("angle_deg", "angle_rad"):
+            o["change_unit"] = r.choice(["deg", "rad", "mm"])
+        else:
+            o["change_unit"] = r.choice(["mm", "deg"])
+    if fmt != "kitti":
+        t0, t1 = data["ref_stamps"][0], data["ref_stamps"][-1]
+        if r.random() < 0.35:
+            o["t_start"] = r.choice([t0 + 0.25 * (t1 - t0), t0, 0.0])
+        if r.random() < 0.3:
+            o["t_end"] = r.choice([t0 + 0.8 * (t1 - t0), t1, 0.0 if t0 < 0 else t1 + 1])
+        if r.random() < 0.3:
+            o["t_max_diff"] = r.choice([0.001, 0.02, 0.05])
+    if which == "rpe":
+        u = r.choice(["f", "f", "m", "d", "r"])
+        o["delta_unit"] = u
+        o["delta"] = {"f": r.choice([1.0, 2.0, 3.0]), "m": r.choice([0.5, 1.5]), "d": r.choice([5.0, 15.0]),
+                      "r": r.choice([0.1, 0.3])}[u]
+        if r.random() < 0.4:
+            o["all_pairs"] = True
+        if r.random() < 0.5:
+            o["pairs_from_reference"] = True
+        if r.random() < 0.2:
+            o["delta_tol"] = r.choice([0.05, 0.3])
+    return o
 
 
 def gen_cli_cases(ctx, which):
-    return iter(())
+    r = ctx.rng
+    n_cases = 70 if not ctx.thorough else 1500
+    # corpus: F9 (t_start 0 with stamps straddling zero), offset signs, crop on the reference only
+    data = gen_traj_pair(r, 10, "tum", -0.5, 0.0)
+    yield {"kind": "cli", "which": which, "fmt": "tum", "data": data, "off": None,
+           "opts": dict({"pose_relation": "trans_part", "t_start": 0.0}, **({"delta": 1.0, "delta_unit": "f"} if which == "rpe" else {}))}
+    yield {"kind": "cli", "which": which, "fmt": "tum", "data": data, "off": None,
+           "opts": dict({"pose_relation": "trans_part", "t_end": 0.0}, **({"delta": 1.0, "delta_unit": "f"} if which == "rpe" else {}))}
+    for _ in range(n_cases):
+        fmt = r.choice(["tum", "tum", "kitti", "euroc"])
+        n = r.randint(6, 24)
+        base = r.choice([-0.5, 0.0, 100.0, 1.5e9 + r.randint(0, 10 ** 6)]) if fmt != "euroc" else 1.4e9 + r.randint(0, 10 ** 6)
+        off = None
+        if fmt != "kitti" and r.random() < 0.4:
+            off = r.choice([0.5, -0.5, 0.03, -0.03, 2.0])
+        data = gen_traj_pair(r, n, fmt, base, off or 0.0)
+        yield {"kind": "cli", "which": which, "fmt": fmt, "data": data, "off": off, "opts": gen_opts(r, which, fmt, data)}
+
+
+# ------------------------------------------------------------------------------------------------ files, argv
+def write_files(case, d):
+    data, fmt = case["data"], case["fmt"]
+    ref, est = os.path.join(d, "ref.txt"), os.path.join(d, "est.txt")
+    if fmt == "kitti":
+        mc.write_kitti(ref, data["ref12"])
+        mc.write_kitti(est, data["est12"])
+    else:
+        est7 = mc.to_quat_rows(data["est12"])
+        mc.write_tum(est, data["est_stamps"], est7)
+        ref7 = mc.to_quat_rows(data["ref12"])
+        if fmt == "euroc":
+            ref = os.path.join(d, "data.csv")
+            mc.write_euroc(ref, data["ref_ns"], ref7)
+        else:
+            mc.write_tum(ref, data["ref_stamps"], ref7)
+    return ref, est
+
+
+def argv_of(case, ref, est, zip_path):
+    o = case["opts"]
+    a = [case["fmt"], ref, est, "-r", o["pose_relation"], "--save_results", zip_path, "--no_warnings", "--silent"]
+    for flag in ("align", "correct_scale", "align_origin", "all_pairs", "pairs_from_reference"):
+        if o.get(flag):
+            a.append("--" + flag)
+    for key in ("n_to_align", "downsample", "project_to_plane", "change_unit", "t_start", "t_end", "t_max_diff",
+                "delta", "delta_unit", "delta_tol"):
+        if o.get(key) is not None:
+            v = o[key]
+            a.append(f"--{key}={v!r}" if isinstance(v, float) else f"--{key}={v}")
+    if case.get("off") is not None:
+        a.append(f"--t_offset={case['off']!r}")
+    if o.get("motion_filter") is not None:
+        a += ["--motion_filter", repr(o["motion_filter"][0]), repr(o["motion_filter"][1])]
+    return a
+
+
+def opt_rat(x):
+    return "-" if x is None else rat(x)
+
+
+def plan_line(which, args):
+    """the parsed argparse namespace → the model's option tokens"""
+    has_stamps = args.subcommand != "kitti"
+    mf = args.motion_filter
+    toks = ["1" if has_stamps else "0",
+            "-" if args.downsample is None else str(int(args.downsample)),
+            "-" if mf is None else rat(mf[0]), "-" if mf is None else rat(mf[1]),
+            opt_rat(getattr(args, "t_start", None)), opt_rat(getattr(args, "t_end", None)),
+            rat(getattr(args, "t_max_diff", 0.01)), rat(getattr(args, "t_offset", 0.0)),
+            "1" if args.align else "0", "1" if args.correct_scale else "0", str(int(args.n_to_align)),
+            "1" if args.align_origin else "0", args.project_to_plane or "-", args.pose_relation, args.change_unit or "-"]
+    if which == "rpe":
+        toks += [rat(args.delta), args.delta_unit, rat(args.delta_tol), "1" if args.all_pairs else "0",
+                 "1" if args.pairs_from_reference else "0"]
+    return ("C01" if which == "ape" else "C02") + " plan " + " ".join(toks)
+
+
+# ------------------------------------------------------------------------------------------------ running evo
+def run_cli(case):
+    """evo_ape / evo_rpe in-process; returns the stored arrays (bytes) or the exception class"""
+    from evo.tools.settings import SETTINGS
+    if case["which"] == "ape":
+        from evo import main_ape as main, main_ape_parser as mp
+    else:
+        from evo import main_rpe as main, main_rpe_parser as mp
+    d = tempfile.mkdtemp(prefix="evo_verif_cli_")
+    try:
+        ref, est = write_files(case, d)
+        zp = os.path.join(d, "res.zip")
+        argv = argv_of(case, ref, est, zp)
+        out = {"argv": [a.replace(d, "<dir>") for a in argv]}
+        with mc.quiet():
+            args = mp.parser().parse_args(argv)
+        out["plan_line"] = plan_line(case["which"], args)
+        old = SETTINGS.save_traj_in_zip
+        SETTINGS.save_traj_in_zip = True
+        try:
+            with mc.quiet():
+                main.run(args)
+            out["exc"] = None
+        except Exception as e:  # noqa
+            out["exc"] = type(e).__name__
+            out["exc_msg"] = str(e)[:200]
+        finally:
+            SETTINGS.save_traj_in_zip = old
+        if out["exc"] is None:
+            z = mc.read_zip_arrays(zp)
+            out["error_array"] = z["error_array"]
+            out["timestamps"] = z.get("timestamps")
+            import zipfile
+            with zipfile.ZipFile(zp) as zf:
+                out["trajs"] = {("ref" if os.path.basename(n).startswith(("ref", "data")) else "est"): zf.read(n)
+                                for n in zf.namelist() if n.endswith((".tum", ".kitti"))}
+        # fresh copies for the interpreters
+        out["dir"] = d
+        return out
+    except Exception:
+        shutil.rmtree(d, ignore_errors=True)
+        raise
+
+
+def load_fresh(case, d):
+    from evo.tools import file_interface as fi
+    fmt = case["fmt"]
+    ref = os.path.join(d, "data.csv" if fmt == "euroc" else "ref.txt")
+    est = os.path.join(d, "est.txt")
+    with mc.quiet():
+        if fmt == "kitti":
+            return fi.read_kitti_poses_file(ref), fi.read_kitti_poses_file(est)
+        if fmt == "euroc":
+            return fi.read_euroc_csv_trajectory(ref), fi.read_tum_trajectory_file(est)
+        return fi.read_tum_trajectory_file(ref), fi.read_tum_trajectory_file(est)
+
+
+def parse_plan(s):
+    return [st.split() for st in s.split(" | ")] if s.strip() else []
+
+
+def opt_float(tok):
+    return None if tok == "-" else float(core.parse_rat(tok))
+
+
+def apply_steps(steps, ref, est, stop_before_metric=False):
+    """interpret a list of steps ([name, args…], rationals as p/q text or floats) with evo's core API"""
+    from evo.core import sync, metrics
+    from evo.core.trajectory import Plane
+    from evo.core.units import Unit
+    metric = None
+
+    def num(x):
+        return float(core.parse_rat(x)) if isinstance(x, str) else x
+    with mc.quiet():
+        for st in steps:
+            op = st[0]
+            if op == "downsample":
+                ref.downsample(int(st[1]))
+                est.downsample(int(st[1]))
+            elif op == "motion_filter":
+                ref.motion_filter(num(st[1]), num(st[2]), True)
+                est.motion_filter(num(st[1]), num(st[2]), True)
+            elif op == "crop_ref":
+                s = None if st[1] in ("-", None) else num(st[1])
+                e = None if st[2] in ("-", None) else num(st[2])
+                ref.reduce_to_time_range(s, e)
+            elif op == "associate":
+                ref, est = sync.associate_trajectories(ref, est, num(st[1]), num(st[2]))
+            elif op == "align":
+                kind, n = st[1], int(st[2])
+                est.align(ref, correct_scale=kind in ("sim3", "scale_only"), correct_only_scale=kind == "scale_only", n=n)
+            elif op == "align_origin":
+                est.align_origin(ref)
+            elif op == "project":
+                ref.project(Plane(st[1]))
+                est.project(Plane(st[1]))
+            elif op == "ape":
+                if stop_before_metric:
+                    return ref, est, None
+                metric = metrics.APE(mc.pose_relation(st[1]))
+                metric.process_data((ref, est))
+            elif op == "rpe":
+                if stop_before_metric:
+                    return ref, est, None
+                unit = {"f": Unit.frames, "m": Unit.meters, "r": Unit.radians, "d": Unit.degrees}[st[3]]
+                metric = metrics.RPE(mc.pose_relation(st[1]), num(st[2]), unit, num(st[4]), st[5] in ("1", True),
+                                     st[6] in ("1", True))
+                metric.process_data((ref, est))
+            elif op == "change_unit":
+                metric.change_unit(Unit(st[1]))
+            elif op == "reduce_to_first_and_pair_ends":
+                ids = [0] + list(metric.delta_ids)
+                ref.reduce_to_ids(ids)
+                est.reduce_to_ids(ids)
+            else:
+                raise core.ToolError("unknown plan step " + op)
+    return ref, est, metric
+
+
+def documented_steps(case, which):
+    """the pipeline as documented (evo_ape --help, wiki): down-sampling and motion filter on both trajectories before
+    the synchronisation; time range on the reference; association with max_diff and offset; Umeyama alignment
+    (-a: SE(3), -as: Sim(3), -s alone: scale only) over the first n_to_align poses; origin alignment; projection after
+    the alignment; the metric; the unit change. Written from the option help texts, independent of the Lean plan."""
+    o = case["opts"]
+    st = []
+    if o.get("downsample"):
+        st.append(["downsample", o["downsample"]])
+    if o.get("motion_filter") is not None:
+        if case["fmt"] == "kitti":
+            return "FilterException"
+        st.append(["motion_filter", o["motion_filter"][0], o["motion_filter"][1]])
+    if case["fmt"] != "kitti":
+        if o.get("t_start") is not None or o.get("t_end") is not None:
+            st.append(["crop_ref", o.get("t_start"), o.get("t_end")])
+        st.append(["associate", o.get("t_max_diff", 0.01), case["off"] if case.get("off") is not None else 0.0])
+    a, s = bool(o.get("align")), bool(o.get("correct_scale"))
+    if a or s:
+        st.append(["align", "sim3" if (a and s) else "se3" if a else "scale_only", o.get("n_to_align", -1)])
+    if o.get("align_origin"):
+        st.append(["align_origin"])
+    if o.get("project_to_plane"):
+        st.append(["project", o["project_to_plane"]])
+    st.append(["ape" if which == "ape" else "rpe"])
+    return st
+
+
+# ------------------------------------------------------------------------------------------------ oracle on the CLI output
+def unit_factor(rel, new):
+    """expected multiplier of the error values for --change_unit, None = conversion must be refused"""
+    cur = {"trans_part": "m", "point_distance": "m", "angle_deg": "deg", "angle_rad": "rad",
+           "point_distance_error_ratio": "%"}.get(rel, "none")
+    if new is None or new == cur:
+        return 1.0
+    if cur in LEN_FACTOR and new in LEN_FACTOR:
+        return LEN_FACTOR[new]
+    if cur == "deg" and new == "rad":
+        return 1.0 / mc.DEG
+    if cur == "rad" and new == "deg":
+        return mc.DEG
+    return None
+
+
+def cli_oracle(ctx, case, impl, which):
+    from props import C01 as P1, C02 as P2
+    from evo import EvoException
+    o = case["opts"]
+    rel = o["pose_relation"]
+    steps = documented_steps(case, which)
+    want_exc = None
+    ref = est = None
+    if steps == "FilterException":
+        want_exc = "FilterException"
+    else:
+        try:
+            ref, est = load_fresh(case, impl["dir"])
+            ref, est, _ = apply_steps(steps, ref, est, stop_before_metric=True)
+        except EvoException as e:
+            want_exc = type(e).__name__
+    fac = unit_factor(rel, o.get("change_unit"))
+    if want_exc is None and ref.num_poses != est.num_poses:
+        want_exc = "MetricsException"
+    pairs = None
+    if want_exc is None and which == "rpe":
+        pc = {"delta": o.get("delta", 1.0), "unit": o.get("delta_unit", "f"), "tol": o.get("delta_tol", 0.1),
+              "all_pairs": bool(o.get("all_pairs"))}
+        try:
+            pairs = P2.evo_pairs(pc, ref if o.get("pairs_from_reference") else est)
+        except Exception as e:  # delta not integral for frames etc.
+            want_exc = type(e).__name__
+        if pairs is None and want_exc is None:
+            want_exc = "FilterException"
+    if want_exc is None and fac is None:
+        want_exc = "MetricsException"
+    if want_exc is not None:
+        if impl["exc"] is None:
+            ctx.fail(case, "cli-refusal", f"documented pipeline raises {want_exc}, evo_{which} stored {len(impl['error_array'])} values")
+        return want_exc
+    if impl["exc"] is not None:
+        ctx.fail(case, "cli-runs", f"evo_{which} raised {impl['exc']}: {impl.get('exc_msg')} but the documented pipeline succeeds")
+        return None
+    vals = [float(v) for v in impl["error_array"].reshape(-1)]
+    sref, sest = mc.seen_poses(ref), mc.seen_poses(est)
+    eref, eest = [mc.F12(p) for p in sref], [mc.F12(p) for p in sest]
+    pim = {"seen_ref": sref, "seen_est": sest}
+    if which == "ape":
+        want = [(k, k, P1.textbook_ape(rel, eref[k], eest[k])) for k in range(len(eref))]
+        want_stamps = None if case["fmt"] == "kitti" else est.timestamps
+    else:
+        want = []
+        for (i, j) in pairs:
+            w = P2.textbook_rpe(rel, eref[i], eref[j], eest[i], eest[j])
+            if w is not None:
+                want.append((i, j, w))
+        want_stamps = None if case["fmt"] == "kitti" else est.timestamps[[j for _, j, _ in want]]
+    if len(vals) != len(want):
+        ctx.fail(case, "cli-values-for-exactly-the-remaining-pairs",
+                 f"evo_{which} stored {len(vals)} values, {len(want)} pose pairs remain after the requested processing")
+        return None
+    if want_stamps is not None:
+        got = impl["timestamps"]
+        if got is None or np.asarray(got).tobytes() != np.asarray(want_stamps, dtype=float).tobytes():
+            ctx.fail(case, "cli-timestamps-of-the-remaining-pairs",
+                     f"stored timestamps {None if got is None else list(got[:5])} … expected {list(want_stamps[:5])} …")
+            return None
+    for k, (i, j, w) in enumerate(want):
+        w2 = w * fac
+        tol = 4 * P2.pair_tol(rel, pim, i, j, w) * abs(fac)
+        if not abs(vals[k] - w2) <= tol:
+            ctx.fail(case, "cli-value-equals-definition",
+                     f"{rel}: value {k} (poses {i},{j}): stored {vals[k]!r}, definition {w2!r} (tol {tol:.3g})")
+            return None
+    return None
+
+
+# ------------------------------------------------------------------------------------------------ evaluate
+def traj_text(traj):
+    from evo.tools import file_interface as fi
+    from evo.core.trajectory import PoseTrajectory3D
+    buf = io.StringIO()
+    with mc.quiet():
+        if isinstance(traj, PoseTrajectory3D):
+            fi.write_tum_trajectory_file(buf, traj)
+        else:
+            fi.write_kitti_poses_file(buf, traj)
+    return buf.getvalue().encode("utf-8")
 
 
 def evaluate(ctx, cases, which):
-    return
+    from evo import EvoException
+    if not cases:
+        return
+    impls = []
+    try:
+        for c in cases:
+            impls.append(run_cli(c))
+        plans = core.run_driver([im["plan_line"] for im in impls], "C01" if which == "ape" else "C02")
+        for case, impl, plan in zip(cases, impls, plans):
+            judge(ctx, case, impl, plan, which)
+    finally:
+        for im in impls:
+            shutil.rmtree(im.get("dir", ""), ignore_errors=True)
+
+
+def judge(ctx, case, impl, plan, which):
+    from evo import EvoException
+    # ---- correspondence: the Lean plan, interpreted, must reproduce the CLI bit for bit
+    m_exc, ref, est, metric = None, None, None, None
+    if plan == "E_FILTER":
+        m_exc = "FilterException"
+    elif plan == "BAD-OP":
+        raise core.ToolError("driver rejected " + impl["plan_line"])
+    else:
+        try:
+            ref, est = load_fresh(case, impl["dir"])
+            ref, est, metric = apply_steps(parse_plan(plan), ref, est)
+        except EvoException as e:
+            m_exc = type(e).__name__
+    if m_exc is not None or impl["exc"] is not None:
+        if m_exc != impl["exc"]:
+            ctx.mismatch(case, f"evo_{which} outcome differs from the interpreted plan", impl["exc"] or "stored a result",
+                         m_exc or "plan runs")
+        ctx.count("branch", "cli-refused:" + str(m_exc))
+    else:
+        if np.asarray(metric.error).tobytes() != impl["error_array"].tobytes():
+            ctx.mismatch(case, f"error_array stored by evo_{which} is not bit-identical to the interpreted plan",
+                         [float(v) for v in impl["error_array"][:6]], [float(v) for v in np.asarray(metric.error)[:6]])
+        elif case["fmt"] != "kitti":
+            ts = est.timestamps if which == "ape" else est.timestamps[1:]
+            if impl["timestamps"] is None or np.asarray(ts).tobytes() != impl["timestamps"].tobytes():
+                ctx.mismatch(case, f"timestamps stored by evo_{which} differ from the interpreted plan",
+                             None if impl["timestamps"] is None else [float(v) for v in impl["timestamps"][:6]],
+                             [float(v) for v in ts[:6]])
+        if impl.get("trajs"):
+            for name, tr in (("ref", ref), ("est", est)):
+                if name in impl["trajs"] and impl["trajs"][name] != traj_text(tr):
+                    ctx.mismatch(case, f"{name} trajectory stored by evo_{which} differs from the interpreted plan", None, None)
+        for st in parse_plan(plan):
+            ctx.count("branch", "step:" + st[0] + (":" + st[1] if st[0] == "align" else ""))
+    # ---- oracle
+    cli_oracle(ctx, case, impl, which)
+    # ---- bookkeeping
+    ctx.count("dist", f"cli:{case['fmt']}")
+    for k in case["opts"]:
+        if k != "pose_relation":
+            ctx.count("dist", "opt:" + k)
+    if case.get("off") is not None:
+        ctx.count("dist", "opt:t_offset" + ("+" if case["off"] > 0 else "-"))
+    ctx.record({k: v for k, v in case.items()}, nontrivial=len(case["opts"]) > 1 or case.get("off") is not None)
 
 
 def shrink(case):
-    return iter(())
+    o = case["opts"]
+    for k in list(o):
+        if k in ("pose_relation", "delta", "delta_unit"):
+            continue
+        c = copy.deepcopy(case)
+        del c["opts"][k]
+        yield c
+    if case.get("off") is None and len(case["data"]["ref12"]) > 4 and case["fmt"] == "kitti":
+        c = copy.deepcopy(case)
+        for key in ("ref12", "est12"):
+            c["data"][key] = c["data"][key][:-1]
+        yield c
